@@ -38,6 +38,9 @@ def cases(seed, tier):
         rng = random.Random(sub_seed(seed, "c16d", i))
         out.append({"group": "extra", "kind": "x0dtype", "seed": sub_seed(seed, "c16ds", i), "xdtype": ["float32", "int64", "float32", "int32", "float64"][i % 5],
                     "ns": rng.choice([3, 7, 10, 33, 100, 257]), "nb": rng.choice([0, 1, 4]), "const": i % 4 == 0, "inplace_step": i % 3 == 1})
+    # round 6: tuple components of different dtypes / kinds, failing call followed by a normal one, log p known up to a constant
+    from vf import c16_wide
+    out.extend(c16_wide.cases(seed, tier))
     return out
 
 
@@ -235,6 +238,9 @@ def run_case(desc):
         return run_shared(desc)
     if desc.get("kind") == "x0dtype":
         return run_x0dtype(desc)
+    if desc.get("kind") in ("mixdtype", "abort_reuse", "offset"):
+        from vf import c16_wide
+        return c16_wide.run_case(desc)
     import xitorch
     from xitorch.integrate import mcquad
     obs = Obs(desc)
